@@ -1,1 +1,4 @@
 import Pyvsc.Model.Values
+import Pyvsc.Model.Bins
+import Pyvsc.Spec.Values
+import Pyvsc.Spec.Bins
